@@ -126,13 +126,13 @@ fn number_enumerals(
         ext.into_iter()
             .map(|(name, index, _, comments)| {
                 let index = index.unwrap_or_else(|| {
-                    while used.contains(&next) {
+                    while used.contains(&next) && next < i128::MAX {
                         next += 1;
                     }
                     next
                 });
                 used.push(index);
-                next = next.max(index + 1);
+                next = next.max(index.saturating_add(1));
                 Enumeral {
                     name: name.into(),
                     description: comments.map(|c| c.into()),
